@@ -620,3 +620,16 @@ for _c, _nm in ((0, "fin_in_frame_header"), (1, "socket_error"), (2, "daemon_clo
       bounds="websocket peer P owning a state (B subscribed), holding a fetch, caller of a request to O and owner of a request from B; connection ends by %s" % _nm,
       **_scn_wsclose)
 _also(["C05.ws_end_"], ["C05", "C07"])
+
+# ------------------------------------------------------------------------------------------------ C14 reply and expiry in one event batch
+_scn_batch = dict(_scn, harness="harness/scn_batch.c",
+                  unwindset=dict(_scn["unwindset"], **{"verif_router_snprintf.0": 10, "verif_router_snprintf.1": 5, "verif_epoll_ctl.0": 6, "handle_events.0": 4, "harness_batch.0": 12}),
+                  stubs=_SCN_STUBS[:-3] + ["epoll_ctl/epoll_create/timerfd_create/timerfd_settime/close/socket_close: registration table and descriptor counter; socket_read on the timerfd: reports one expiration",
+                                           "snprintf in router.c: stand-in for the two id formats", "credentials_ok/change_password: not part of this scenario"])
+for _rf, _nm in ((1, "reply_then_expiry"), (0, "expiry_then_reply")):
+    O(id="C14.batch_" + _nm, props=["C14", "C03", "C06", "C07"], entry="harness_batch", defines=["REPLY_FIRST=%d" % _rf],
+      functions=["handle_events", "eventloop_epoll_add", "eventloop_epoll_remove", "cjet_timer_init", "timer_read", "timer_cancel", "cjet_timer_destroy",
+                 "handle_routing_response", "request_timeout_handler", "setup_routing_information"],
+      symbolic="set value", assumes=["set-up requests succeed", "the timer did expire (reading the timerfd returns one expiration)"],
+      bounds="one routed request; one batch of two events (%s)" % _nm, **_scn_batch)
+_also(["C14.batch_"], ["C14", "C06"])
